@@ -135,6 +135,7 @@ type Env struct {
 	MkItem func(int) *Item
 	Div    func(int, int) int // panics for a zero divisor
 	EqAny  func(a, b interface{}) interface{}
+	FnEnv  func(int) int // depends on the environment it belongs to (adds B)
 
 	log *Log
 }
@@ -143,6 +144,12 @@ type Env struct {
 func (e Env) Inc(n int) int {
 	e.log.add("Inc", n)
 	return n + 1
+}
+
+// AddA depends on the environment value it is called on.
+func (e Env) AddA(n int) int {
+	e.log.add("AddA", n)
+	return n + e.A
 }
 
 func (e Env) Cat(a, b string) string {
@@ -205,6 +212,7 @@ func New(l *Log) *Env {
 		return out
 	}
 	e.EqAny = func(a, b interface{}) interface{} { l.add("EqAny", a, b); return a == nil || b == nil }
+	e.FnEnv = func(n int) int { l.add("FnEnv", n); return n + e.B }
 	e.Div = func(a, b int) int { l.add("Div", a, b); return a / b }
 	e.MkItem = func(n int) *Item {
 		l.add("MkItem", n)
@@ -395,6 +403,7 @@ func AsMap(e *Env) map[string]interface{} {
 	m["Cat"] = e.Cat
 	m["IsPos"] = e.IsPos
 	m["Half"] = e.Half
+	m["AddA"] = e.AddA
 	return m
 }
 
